@@ -237,6 +237,18 @@ def replay_macros(exe, failures):
     # "on maps filter and map range over the keys in one fixed order": a counterexample on a map
     # receiver is confirmed by running the macro several times over a map that is built afresh at
     # every execution - two executions that disagree show that the order is the hash map's
+    # "cyclic chains passing through macro bodies end in an error instead of exhausting the stack": a
+    # counterexample of the depth obligation is confirmed by a program that refers to itself from the
+    # body of that macro, run in a process of its own - the process dying is the violation
+    for m in sorted({(f.get("scenario") or {}).get("macro") for f in failures if "call depth" in f.get("label", "")} - {None}):
+        src = "[1].reduce(a, x, p, 0)" if m == "reduce" else f"[1].{m}(x, p)"
+        import subprocess as _sp
+        pr = _sp.run([exe, "eval"], input=json.dumps({"programs": [["p", src]], "run": ["p"], "params": {}}) + "\n", capture_output=True, text=True, timeout=120)
+        rec = {"label": "reference cycle through the body of " + m, "source": "p := " + src, "native": {"returncode": pr.returncode, "stdout": pr.stdout[-200:], "stderr": pr.stderr[-200:]}}
+        tried.append(rec)
+        if pr.returncode != 0 or "panic" in pr.stdout:
+            rec["reproduced"] = True
+            return {"status": "reproduced", "summary": f"`p := {src}` evaluated through the public API kills the process ({pr.stderr.strip().splitlines()[-1] if pr.stderr.strip() else pr.returncode}): the cycle passes through a macro body, whose interpreter starts again at depth 0", "attempts": tried}
     for m in sorted({(f.get("scenario") or {}).get("macro") for f in failures if (f.get("scenario") or {}).get("receiver") == "Map"} & {"map", "filter"}):
         body = "k" if m == "map" else "true"
         src = "{'k0': x, 'k1': 1, 'k2': 2, 'k3': 3, 'k4': 4, 'k5': 5}." + m + "(k, " + body + ")"
